@@ -66,7 +66,8 @@ func main() {
 	}
 
 	// --- controlled random schedules ---
-	nprog := hv.Scale(140, 1500)
+	exploreSmall(r)
+	nprog := hv.Scale(50, 1500)
 	for i := 0; i < nprog; i++ {
 		p := genProgram(r, false, 4, 7)
 		reps := 3
